@@ -108,6 +108,9 @@ def gen_history(rng, maxops=12):
         elif r < 0.62:
             ops.append(["reborrow", rng.choice([-1, h])])
             nh += 1
+        elif r < 0.70:
+            ops.append(["scope", h, rng.randint(0, 2)])
+            nh += 1
         else:
             ops.append(["tool", rng.choice(TOOL_NAMES), h, rng.randint(0, 4), rng.choice(["close", "close", "exhaust", "abandon"])])
     return ops
@@ -117,7 +120,8 @@ def cases(tier, seed, shard, nshards):
     idx = 0
     alphabet = [["next_b", 0], ["next_u"], ["aclose_b", 0], ["aclose_iter", 0], ["asend", 0], ["reborrow", 0], ["next_b", 1],
                 ["tool", "islice2", 0, 1, "close"], ["tool", "takewhile", 0, 1, "abandon"], ["tool", "zip", 0, 0, "close"],
-                ["tool", "list", 0, 0, "close"], ["tool", "chain", 0, 0, "close"], ["tool", "tee0", 1, 1, "close"]]
+                ["tool", "list", 0, 0, "close"], ["tool", "chain", 0, 0, "close"], ["tool", "tee0", 1, 1, "close"],
+                ["scope", 0, 1], ["asend", 1], ["next_b", 2]]
     maxlen = 3 if tier == "quick" else 4
     for n in range(1, maxlen + 1):
         for hist in itertools.product(alphabet, repeat=n):
@@ -241,7 +245,7 @@ def run_history(case, stats, scoped=None):
                     return
             elif kind in ("next_b", "asend"):
                 h = op[1] if op[1] < len(handles) else 0
-                if kind == "asend" and not has_asend:
+                if kind == "asend" and (not has_asend or not hasattr(handles[h], "asend")):
                     continue
                 if kind == "asend" and h not in self_closed and state[h] != "open":
                     # asend of a view whose *parent* handle was closed: not fixed by the property
@@ -289,6 +293,26 @@ def run_history(case, stats, scoped=None):
                 # (zip_longest drops exhausted inputs without closing them)
                 self_closed.add(h)
                 counters["handle_closes"] += 1
+            elif kind == "scope":
+                # a scope over the borrowed handle: ends its own (scoped) handle and closes the borrowed one it was
+                # given - never the underlying iterator; the ended scoped handle joins the handles under observation
+                h = op[1] if op[1] < len(handles) else 0
+                if state[h] != "open":
+                    continue
+                async with A.scoped_iter(handles[h]) as sh:
+                    for _ in range(op[2]):
+                        got = await anext_of(sh)
+                        want = _uid(next(model, STOP))
+                        if got != want:
+                            fail("borrow/handle-sequence", f"op {n} {op}: scoped handle gave {got}, shared iterator gives {want}")
+                            return
+                state[h] = "closed"
+                self_closed.add(h)
+                handles.append(sh)
+                own.append("closed")
+                parent.append(h)
+                self_closed.add(len(handles) - 1)
+                counters["scopes_over_borrowed_handles"] += 1
             elif kind == "reborrow":
                 src = under if op[1] < 0 or op[1] >= len(handles) else handles[op[1]]
                 handles.append(A.borrow(src))
